@@ -632,6 +632,12 @@ def jr_key(E, seed):
 
 @LIB.fn("jax.random.split", doc="split(key, n): n keys, each a function of (key, position)")
 def jr_split(E, key, num=2):
+    if isinstance(num, (tuple, list)):
+        # split(key, shape): an array of keys of that shape, each a function of (key, position)
+        kz = key.z
+
+        f_nd = C.uf(f"key_split_nd{len(num)}", *([KEY] + [INT] * len(num) + [KEY]))
+        return Tensor(tuple(num), lambda *i: Sym(f_nd(kz, *[C.to_z3(x) for x in i])), KEY)
     if not isinstance(num, int):
         kz = key.z
         return Tensor((num,), lambda i: Sym(split_l(kz, C.to_z3(i))), KEY)
